@@ -358,6 +358,10 @@ public:
 		swap(naux,other.naux);
 		swap(aux,other.aux);
 		swap(allocator,other.allocator);
+		//the source now holds what this table held before, together with the
+		//allocator it came from: release it, so that a table which has been
+		//moved from is empty, as after move construction
+		other.release_storage();
 		return(*this);
 	}
 	
